@@ -144,6 +144,11 @@ func (x *Exec) doProbe(op *Op) {
 		x.viol("C19", "json_roundtrip", "genesis cannot be written as JSON: "+p, attrs)
 		return
 	}
+	// the way a node validates a genesis file: the module's own entry point on the JSON document
+	if err := (service.AppModuleBasic{}).ValidateGenesis(cdc, nil, bz); err != nil && !snapHasNon20(mid) {
+		x.viol("C19", "validate", fmt.Sprintf("exported genesis document fails the module's genesis validation at height %d: %v", pre.Height, err), attrs)
+		return
+	}
 	var gs2 types.GenesisState
 	if err := cdc.UnmarshalJSON(bz, &gs2); err != nil {
 		x.viol("C19", "json_roundtrip", fmt.Sprintf("exported genesis cannot be read back from JSON at height %d: %v", pre.Height, err), attrs)
